@@ -1,8 +1,8 @@
 (** RingRound: graph level.  For every plain graph (rings allowed) and every ring transcript whose bonds are graph
-    edges, outside the `%nn`-then-digit pattern: write_cgsmiles_graph g tr is read by the reader model as the
-    token machine's denotation of the writer's own item list (DFS tree + ring items in the order of writing).
-    PARTIAL with respect to C07: what is missing for arbitrary ring edges is the last step
-    "denote_lin items is isomorphic to g" (proved for trees: TreeRound; bounded for rings: C07_small). *)
+    edges: write_cgsmiles_graph g tr is read by the reader model as the token machine's denotation of the writer's
+    own item list (DFS tree + ring items in the order of writing).  No pattern is excluded any more: the former
+    exception (a `%nn` marker followed by a one-digit marker on one node) is not written since fix b681517.
+    The last step "denote_lin items is isomorphic to g" is FullRound.C07_roundtrip. *)
 From Coq Require Import String.
 From Coq Require Import List Ascii ZArith Bool Lia.
 From CGV Require Import Base.PyBase Base.PyVal Base.PyGen Base.NxGraph Gen.WriterGen Dialect.DialectImpl.
@@ -15,21 +15,20 @@ Open Scope Z_scope.
 Definition rsym_of (g : graph) (tr : list (Z * Z)) (ri : nat) : option sym :=
   match nth_error tr (ri - 1) with Some bond => esym_of g (fst bond) (snd bond) | None => None end.
 
-Theorem graph_text_is_read_partial : forall fo g tr start,
+Theorem graph_text_is_read : forall fo g tr start,
   plain_graph g = true -> min_node g = Ok start ->
   (forall bond, In bond tr -> In (snd bond) (neighbors g (fst bond))) ->
   (forall k, In k (node_keys g) -> name_ok fo (name_of g k) = true) ->
   exists T, rkey T = start /\ dfs_edges g start = Ok (redges T) /\ NoDup (rkeys T) /\
     let items := fst (tlinsR (name_of g) (esym_of g) (rlist_of tr) (rsym_of g tr) false 0 None [] T) in
-    (rings_plain items = true ->
-     exists s, write_cgsmiles_graph g tr = Ok s /\ read_cgsmiles fo s = denote_lin fo items).
+    exists s, write_cgsmiles_graph g tr = Ok s /\ read_cgsmiles fo s = denote_lin fo items.
 Proof.
   intros fo g tr start Hp Hmin Htr Hok.
   assert (Hwf : graph_wf g = true) by (unfold plain_graph in Hp; now apply andb_prop in Hp as [H _]).
   destruct (graph_wf_facts g Hwf) as [Hc Hnd]. destruct (min_node_in g start Hmin) as [Hs _].
   destruct (dfs_total g start Hc Hnd Hs) as [es Ees].
   destruct (dfs_shape g start es Ees) as [T (A1 & A2 & _ & A4 & A5 & _)]. subst es.
-  exists T. repeat split; try assumption. cbv zeta. intros Hpl.
+  exists T. split; [assumption|]. split; [assumption|]. split; [assumption|]. cbv zeta.
   assert (Hkeys : forall k, In k (rkeys T) -> In k (node_keys g)).
   { intros k Hk. destruct T as [k0 cs]. cbn [rkey] in A1. subst k0. destruct Hk as [<-|Hk]; [assumption|].
     change (flat_map rkeys cs) with (tl (rkeys (RNode start cs))) in Hk. rewrite <- redges_snd in Hk.
@@ -43,7 +42,6 @@ Proof.
   - intros ri. unfold rsymt_of, rsymt, rsym_of. destruct (nth_error tr (ri - 1)) as [bond|] eqn:En; [|reflexivity].
     rewrite (plain_edge g Hp (fst bond) (snd bond) (Htr bond (nth_error_In _ _ En))). reflexivity.
   - intros k Hk. apply Hok. now apply Hkeys.
-  - exact Hpl.
   - exists (S "{" ++ txt ++ S "}"). split; [|exact R].
     unfold write_cgsmiles_graph, write_graph_cg, write_graph, write_graph_full.
     rewrite Hmin. cbn [bind]. rewrite Ees. cbn [bind]. subst start. rewrite W. reflexivity.
